@@ -380,7 +380,7 @@ func C16(c *Ctx) {
 			_, f, _, ok2 := core.FieldOf(core.Receiver(call))
 			return ok2 && f == "serviceCache"
 		}
-		n := c.behindEdges("R16.5", "applyTx", at, okEdges, isStore, "receipt known successful", "serviceCache.Store")
+		n := c.behindEdges("R16.5", "applyTx", at, okEdges, c.throughHelpers(isStore), "receipt known successful", "serviceCache.Store")
 		r.Floor("R16.5", "service cache fills", n, 1)
 	}
 	if rb := c.fn("R16.5", execPrefix+"rollbackBlocks"); rb != nil {
@@ -400,7 +400,28 @@ func C16(c *Ctx) {
 			}
 			return false
 		}
-		okReset := len(sites(rb, isRollback)) > 0 && followsAll(rb, isRollback, isReset, true)
+		// from the no-error edge of ledger.Rollback every path to a return passes the reset
+		var gs []core.GuardSite
+		for _, in := range sites(rb, isRollback) {
+			if cl, ok := in.(*ssa.Call); ok {
+				gs = append(gs, core.GuardSite{Call: cl, Conv: core.ConvErrNil, Idx: -1})
+			}
+		}
+		var starts []core.Point
+		for b, mm := range core.SuccessEdges(rb, gs) {
+			for i := range mm {
+				starts = append(starts, core.Point{B: b.Succs[i], Idx: 0})
+			}
+		}
+		okReset := len(starts) > 0
+		if okReset {
+			rs := core.Reach(starts, isReset, nil)
+			for _, ret := range core.Returns(rb) {
+				if rs.Has(ret) {
+					okReset = false
+				}
+			}
+		}
 		r.Check(okReset, "R16.5", "rollbackBlocks: cache reset with the ledger", c.P.Pos(rb.Pos()), "every successful path after ledger.Rollback resets the service cache", "after the executor rolled the ledger back the service cache still holds records of the discarded blocks (availability decided from state that no longer exists)")
 	}
 	// SERVICE event after status change in service manager entries
